@@ -20,7 +20,7 @@ from collections import Counter
 
 from . import api_tie as T
 from . import common, console
-from .check_client import answer_stimulus, correspond, rand_ac_status, rand_installation, rand_zone_status
+from .check_client import answer_stimulus, correspond, expected_zones, rand_ac_status, rand_installation, rand_zone_status
 
 TICK = 1024
 MOMENTS = ["mid-handshake", "mid-handshake", "connect-backoff", "connecting", "after-init", "after-init", "after-init-idle",
@@ -170,12 +170,32 @@ def run(ck: common.Check, tier: str) -> None:
             if inst.zones and rng.random() < 0.5:
                 z = rng.choice(sorted(inst.zones))
                 inst.zones[z] = rng.choice(["Renamed", "R2"])
+            if len(inst.zones) > 1 and rng.random() < 0.4:
+                # the installation has shrunk: the highest zone is gone (from the names, the statuses and the bitmaps)
+                z = max(inst.zones)
+                del inst.zones[z]
+                inst.zone_status.pop(z, None)
+                for a in inst.acs:
+                    if getattr(a, "groups", None) is not None:
+                        a.groups = set(a.groups) - {z}
+                    elif a.start + a.count > z >= a.start and a.count > 0 and a.start + a.count - 1 == z:
+                        a.count -= 1
+                dist["zone_removed_before_reinit"] += 1
             t_re = rig.now_ticks()
             r2 = rig.run(rig.at.init())
             if r2 != ("ok", True):
                 ck.violation("init() after shutdown() did not succeed", dict(replay, failure=str(r2)))
                 continue
             snap_re = snapshot(rig)
+            # "rebuilds the model from scratch": exactly what the console describes NOW, whatever was known before
+            want_struct = {a.number: sorted(z for z in expected_zones(inst, a) if z in inst.zones) for a in inst.acs}
+            got_struct = {n: d[1] for n, d in snap_re["acs"].items()}
+            want_names = {z: nm for z, nm in inst.zones.items() if any(z in v for v in want_struct.values())}
+            got_names = {z: zd[0] for d in snap_re["acs"].values() for z, zd in d[3].items()}
+            if got_struct != want_struct or got_names != want_names:
+                ck.violation("after shutdown() and init() the client exposes something other than what the console describes now",
+                             dict(replay, failure=f"ACs -> zones {got_struct} (console: {want_struct}); names {got_names} (console: {want_names})"))
+                continue
             log_re = observe_after_init(rig, t_re)
         finally:
             rig.close()
